@@ -50,9 +50,9 @@ PROPS = {
     },
     "C08": {
         "extractors": ["ladders", "opcodes", "flags", "constants"],
-        "theorems": ["ChiaModel.C11.clvmBytesLen_ok", "ChiaModel.C04.limit_exact"],
-        "gen_theorems": ["ChiaModel.C11.clvmBytesLen_ok"],
-        "open": ["C08_same_conditions / C08_cost_offset / C08_length as theorems about the models runSpendbundle, buildGenerator, calculateGeneratorLength (DESIGN 6) - currently checked by correspondence on every case"],
+        "theorems": ["ChiaModel.C08.generator_length", "ChiaModel.C08.base_cost_offset", "ChiaModel.C11.clvmBytesLen_ok", "ChiaModel.C04.limit_exact"],
+        "gen_theorems": ["ChiaModel.C08.generator_length", "ChiaModel.C08.base_cost_offset", "ChiaModel.C11.clvmBytesLen_ok"],
+        "open": ["C08_same_conditions and the execution-cost part of C08_cost_offset (bundle path = native path on the built generator, up to the quote's 20 and the visitor) - currently checked by correspondence on every case"],
         "trivial": r"^D=REJECT",
         "level": "other",
         "rule": "spend bundles of 0-6 coin spends with C01-generated conditions (identity puzzle / quoted puzzle, 2.5% wrong declared puzzle hash), amounts of every encoding length, flag subsets of {COST_CONDITIONS, LIMIT_SPENDS, INTERNED_GENERATOR, strict}; per case: run_spendbundle, solution_generator bytes, calculate_generator_length, solution_generator_backrefs decoding to the same tree, run_block_generator2 on the plain and on the back-reference generator (its byte cost re-based to the plain length). The model prints the bundle-path result, its own serialisation of the generator (must equal the real bytes; predicted = actual length) and the native-path result on it. non-trivial = distinct accepted bundle",
